@@ -153,7 +153,8 @@ public:
         if (options.patch_file_path.empty() || options.patch_file_path == "-") {
             m_patch_file = File::create_temporary(stdin);
         } else {
-            std::ios::openmode mode = std::ios::in | std::ios::out;
+            // NOTE: the patch is only read, opening it for writing as well would needlessly fail for a read-only one.
+            std::ios::openmode mode = std::ios::in;
             if (options.newline_output != Options::NewlineOutput::Native)
                 mode |= std::ios::binary;
 
